@@ -10,6 +10,8 @@ def run(ctx):
     gens = []
     for f in FAMS:
         gens.append(("MC_RuleManager", "Gen_RuleManager_%s.cfg" % f, None, 600 if q else 20000))
+        # every "A B A" pattern (a rule set given again after one intervening operation)
+        gens.append(("MC_RuleManager", "Gen_RuleManager_%s_aba.cfg" % f, None, None if not q else 2500))
         gens.append(("MC_RuleManager", "Gen_RuleManager_%s_sim.cfg" % f, "num=%d" % (60 if q else 1500), 60 if q else 1500))
     vlib.standard_run(
         ctx,
